@@ -94,6 +94,7 @@ def run(ctx, rep):
     c07.w2(F, tmp)
     c07.w2b(ctx, tmp)
     c07.w6(F, tmp)          # captured padding bits are replayed exactly (non-zero padding is accepted input)
+    c07.w7(F, tmp)          # tokens are written with the codes of their own block's header
     for o in tmp.obs:
         o.rule = "M6"
         rep.obs.append(o)
